@@ -174,7 +174,11 @@ class Session:
 
     def draw(self, rows, cursor):
         colors, bce, enc = self.cfg
-        canv = mk_canvas(rows, cursor, self.size[0], enc)
+        if rows and rows[0] == "SOLID":
+            # a SolidCanvas drawn as the top-level canvas (its content() hands out one row object for every row)
+            canv = urwid.SolidCanvas(rows[1], self.size[0], self.size[1])
+        else:
+            canv = mk_canvas(rows, cursor, self.size[0], enc)
         self.term.scrolls = 0
         self.term.wrapped_at_bottom_right = 0
         del self.term.unknown[:]
@@ -187,6 +191,8 @@ class Session:
         """None or (clause, detail)"""
         colors, bce, enc = self.cfg
         t = self.term
+        if rows and rows[0] == "SOLID":
+            rows = tuple(((rows[1], None),) * self.size[0] for _ in range(self.size[1]))
         if t.unknown:
             return ("unknown-sequence", f"the terminal did not understand {t.unknown[:3]}")
         if t.scrolls:
@@ -314,6 +320,25 @@ def encswitch_task(task, ctx: Ctx):
             env.reset(e1)
             hist = [("draw", a[0], a[1]), ("encoding", e2), ("clear",), ("draw", b[0], b[1])]
             run_hist(ctx, cfg, size, hist, "after-encoding-switch")
+    env.reset("utf-8")
+
+
+def solid_task(task, ctx: Ctx):
+    """a top-level SolidCanvas before / after / between text frames"""
+    cfg, size, tier = task
+    env.reset(cfg[2])
+    fa = frames_for(cfg[2], size, tier, "pair")
+    sa = fa[:: max(1, len(fa) // (12 if tier == "quick" else 40))]
+    for ch in (" ", "x"):
+        solid = ("draw", ("SOLID", ch), None)
+        for hist in ([solid], [solid, solid], [solid, ("clear",), solid]):
+            ctx.count("evaluations")
+            run_hist(ctx, cfg, size, hist, "solid")
+        for a in sa:
+            da = ("draw", a[0], a[1])
+            for hist in ([da, solid], [solid, da], [da, solid, da], [da, ("clear",), solid], [solid, da, solid]):
+                ctx.count("evaluations")
+                run_hist(ctx, cfg, size, hist, "solid")
     env.reset("utf-8")
 
 
@@ -569,6 +594,7 @@ def run(tier, R):
     R.log(f"incremental draws: {n2}")
     R.run_tasks(triple_task, t3, recheck=0.05)
     R.run_tasks(encswitch_task, [(cfg, sizes[0], tier) for cfg in configs(tier) if cfg[1]], recheck=0.05)
+    R.run_tasks(solid_task, [(cfg, size, tier) for cfg in configs(tier) for size in sizes], recheck=0.05)
     n3 = int(R.ctx.counts["evaluations"]) - n1 - n2
     R.log(f"histories with clear/resize: {n3}")
     th = []
